@@ -53,6 +53,7 @@ type group struct {
 	id   string
 	a, b *cfgSpec
 	gen  func(g *group, emit func(r *recSpec, f focus))
+	over bool // records of this group deliberately exceed the serializer's preallocated buffer (they must still be serialized)
 }
 
 type built struct {
@@ -266,6 +267,12 @@ func (rn *runner) runGroup(g *group, t *tally) {
 	idx := 0
 	engine := strings.SplitN(g.id, "/", 2)[0]
 	g.gen(g, func(r *recSpec, f focus) {
+		if g.over {
+			t.events["over_buffer_records"]++
+			rn.runCase(g, A, B, r, f, idx, t)
+			idx++
+			return
+		}
 		shrunk, ok := fitBoth(g.a, g.b, r.vals)
 		if !ok {
 			t.events["skipped_over_budget"]++
